@@ -341,6 +341,8 @@ impl Stdio {
 pub enum ChildStdio {
     Inherit,
     Owned(OwnedFd),
+    /// The same raw descriptor as an earlier stream, which owns (and closes) it
+    Shared(RawFd),
 }
 
 impl ChildStdio {
@@ -348,6 +350,7 @@ impl ChildStdio {
         match self {
             ChildStdio::Inherit => None,
             ChildStdio::Owned(fd) => Some(fd.0),
+            ChildStdio::Shared(fd) => Some(*fd),
         }
     }
 }
@@ -698,9 +701,20 @@ fn setup_io(
     let stdin = stdin.unwrap_or(default_stdin);
     let stdout = stdout.unwrap_or(default);
     let stderr = stderr.unwrap_or(default);
+    // One raw descriptor given for several streams has to be closed once, not once per stream:
+    // the first stream that names it owns it
+    let same_raw = |a: Stdio, b: Stdio| matches!((a, b), (Stdio::RawFd(a), Stdio::RawFd(b)) if a.value() == b.value());
     let (their_stdin, our_stdin) = stdin.to_child_stdio(true)?;
-    let (their_stdout, our_stdout) = stdout.to_child_stdio(false)?;
-    let (their_stderr, our_stderr) = stderr.to_child_stdio(false)?;
+    let (their_stdout, our_stdout) = match stdout {
+        Stdio::RawFd(fd) if same_raw(stdout, stdin) => (ChildStdio::Shared(fd), None),
+        _ => stdout.to_child_stdio(false)?,
+    };
+    let (their_stderr, our_stderr) = match stderr {
+        Stdio::RawFd(fd) if same_raw(stderr, stdin) || same_raw(stderr, stdout) => {
+            (ChildStdio::Shared(fd), None)
+        }
+        _ => stderr.to_child_stdio(false)?,
+    };
     let ours = StdioPipes {
         stdin: our_stdin,
         stdout: our_stdout,
